@@ -106,62 +106,212 @@ def sim_rlock_factory():
     return SimLock(True)
 
 
+class SimCondition(object):
+    """Cooperative threading.Condition: wait() yields to the scheduler until notified."""
+    def __init__(self, lock=None):
+        self._lock = lock if lock is not None else SimLock(True)
+        self._waiters = []
+        self.acquire = self._lock.acquire
+        self.release = self._lock.release
+
+    def __enter__(self):
+        return self._lock.acquire()
+
+    def __exit__(self, *a):
+        self._lock.release()
+
+    def wait(self, timeout=None):
+        s, me = self._lock._me()
+        if not self._lock._is_owned():
+            raise RuntimeError('cannot wait on un-acquired lock')
+        if s is None:
+            raise RuntimeError('Condition.wait() outside the simulator would never be notified')
+        token = [False]
+        self._waiters.append(token)
+        saved = self._lock._release_save()
+        try:
+            s.block_on(me[1], token, timed=(timeout is not None))
+        finally:
+            if token in self._waiters:
+                self._waiters.remove(token)
+            self._lock._acquire_restore(saved)
+        return token[0]
+
+    def wait_for(self, predicate, timeout=None):
+        r = predicate()
+        while not r:
+            got = self.wait(timeout)
+            r = predicate()
+            if timeout is not None and not got:
+                break
+        return r
+
+    def notify(self, n=1):
+        if not self._lock._is_owned():
+            raise RuntimeError('cannot notify on un-acquired lock')
+        s, me = self._lock._me()
+        for token in self._waiters[:n]:
+            token[0] = True
+            self._waiters.remove(token)
+            if s is not None:
+                s.wake(token)
+
+    def notify_all(self):
+        self.notify(len(self._waiters))
+
+    notifyAll = notify_all
+
+
+class SimEvent(object):
+    def __init__(self, flag=False):
+        self._flag = flag
+
+    def is_set(self):
+        return self._flag
+
+    isSet = is_set
+
+    def set(self):
+        self._flag = True
+        s = _current[0]
+        if s is not None:
+            s.wake(self)
+
+    def clear(self):
+        self._flag = False
+
+    def wait(self, timeout=None):
+        while not self._flag:
+            s = _current[0]
+            t = s.ident2tid.get(_get_ident()) if s is not None else None
+            if t is None:
+                raise RuntimeError('Event.wait() outside the simulator would never return')
+            s.block_on(t, self, timed=(timeout is not None))
+            if timeout is not None:
+                break
+        return self._flag
+
+
+class SimSemaphore(object):
+    def __init__(self, value=1):
+        self._value = value
+
+    def acquire(self, blocking=True, timeout=None):
+        while self._value <= 0:
+            if not blocking:
+                return False
+            s = _current[0]
+            t = s.ident2tid.get(_get_ident()) if s is not None else None
+            if t is None:
+                raise RuntimeError('Semaphore contended outside the simulator')
+            s.block_on(t, self, timed=(timeout is not None and timeout >= 0))
+            if timeout is not None and timeout >= 0 and self._value <= 0:
+                return False
+        self._value -= 1
+        return True
+
+    __enter__ = acquire
+
+    def release(self, n=1):
+        self._value += n
+        s = _current[0]
+        if s is not None:
+            s.wake(self)
+
+    def __exit__(self, *a):
+        self.release()
+
+
+_FACTORIES = {'Lock': sim_lock_factory, 'RLock': sim_rlock_factory, 'Condition': SimCondition, 'Event': SimEvent,
+              'Semaphore': SimSemaphore, 'BoundedSemaphore': SimSemaphore}
+
+
 class _ThreadingProxy(object):
     """Stands in for the `threading` module inside athlib namespaces."""
     def __init__(self, real):
         self.__dict__['_real'] = real
     def __getattr__(self, name):
-        if name == 'Lock':
-            return sim_lock_factory
-        if name == 'RLock':
-            return sim_rlock_factory
+        f = _FACTORIES.get(name)
+        if f is not None:
+            return f
         return getattr(self._real, name)
 
 
 def install_lock_seam(modules):
-    """Replace lock objects / lock factories reachable from the given modules by SimLocks.
+    """Replace synchronisation objects and their factories reachable from the given (athlib) modules
+    by cooperative Sim* objects: module globals, class attributes, and attributes of instances of
+    athlib classes, to depth 3.  Identity is preserved (one real lock -> one SimLock).
 
     Returns the number of objects rebound (reported in the evidence).
     """
-    lock_types = (type(_alloc()), type(_real_RLock()))
-    n = 0
+    lock_t, rlock_t = type(_alloc()), type(_real_RLock())
+    real_factories = {id(getattr(threading, k)): v for k, v in _FACTORIES.items()}
+    real_factories[id(_alloc)] = sim_lock_factory
+    memo = {}
+    count = [0]
+
     def conv(v):
-        if isinstance(v, lock_types):
-            return SimLock(reentrant=not isinstance(v, lock_types[0]))
-        return None
+        if id(v) in memo:
+            return memo[id(v)][1]
+        r = None
+        if isinstance(v, lock_t):
+            r = SimLock(False)
+        elif isinstance(v, rlock_t):
+            r = SimLock(True)
+        elif isinstance(v, threading.Condition):
+            r = SimCondition(conv(v._lock) or SimLock(True))
+        elif isinstance(v, threading.Event):
+            r = SimEvent(v.is_set())
+        elif isinstance(v, threading.Semaphore):
+            r = SimSemaphore(v._value)
+        elif v is threading:
+            r = _ThreadingProxy(threading)
+        elif id(v) in real_factories and callable(v):
+            r = real_factories[id(v)]
+        if r is not None:
+            memo[id(v)] = (v, r)        # keeps v alive so that its id stays unique
+        return r
+
     seen = set()
-    for m in modules:
-        d = getattr(m, '__dict__', None)
-        if d is None:
-            continue
-        for k, v in list(d.items()):
-            if v is threading:
-                d[k] = _ThreadingProxy(threading); n += 1; continue
-            if v is _real_Lock or v is _alloc:
-                d[k] = sim_lock_factory; n += 1; continue
-            if v is _real_RLock:
-                d[k] = sim_rlock_factory; n += 1; continue
+
+    def is_ours(v):
+        mod = getattr(v, '__module__', None)
+        if not isinstance(mod, str):
+            mod = getattr(type(v), '__module__', '')
+        return isinstance(mod, str) and (mod == 'athlib' or mod.startswith('athlib.'))
+
+    def walk(holder, items, setter, depth):
+        for k, v in items:
             c = conv(v)
             if c is not None:
-                d[k] = c; n += 1; continue
-            # one level down: class dicts and attributes of module-global instances
-            if id(v) in seen:
+                try:
+                    setter(k, c); count[0] += 1
+                except Exception:
+                    pass
                 continue
-            seen.add(id(v))
-            mod = getattr(v, '__module__', None) or getattr(type(v), '__module__', '')
-            if not isinstance(mod, str) or not mod.startswith('athlib'):
+            if depth <= 0 or id(v) in seen:
+                continue
+            if isinstance(v, (dict, list, tuple)) and depth > 0 and len(v) <= 64 and not isinstance(v, tuple):
+                seen.add(id(v))
+                if isinstance(v, dict):
+                    walk(v, list(v.items()), v.__setitem__, depth - 1)
+                else:
+                    walk(v, list(enumerate(v)), v.__setitem__, depth - 1)
+                continue
+            if not is_ours(v):
                 continue
             vd = getattr(v, '__dict__', None)
             if vd is None:
                 continue
-            for k2, v2 in list(vd.items()):
-                c = conv(v2)
-                if c is not None:
-                    try:
-                        setattr(v, k2, c); n += 1
-                    except Exception:
-                        pass
-    return n
+            seen.add(id(v))
+            walk(v, list(vd.items()), (lambda kk, cc, obj=v: setattr(obj, kk, cc)), depth - 1)
+
+    for m in modules:
+        d = getattr(m, '__dict__', None)
+        if d is None:
+            continue
+        walk(m, [(k, v) for k, v in list(d.items()) if not k.startswith('__')], d.__setitem__, 3)
+    return count[0]
 
 
 # ---------------------------------------------------------------------------------------------
